@@ -1,5 +1,5 @@
 (* C17 — HTML state pseudo-classes follow their definitions and partition laws.  Statements only. *)
-From SV Require Import Base Regex Tree IR Lit Inputs Match MatchFacts DirFacts.
+From SV Require Import Base Regex Tree IR Lit Inputs Match MatchFacts DirFacts FormFacts.
 
 (* :read-only is compiled as html|*:not(:read-write), :enabled as ...:not(:disabled): the partition laws
    are instances of the complement law of C05 (an element cannot match both L and :not(L)) *)
@@ -38,3 +38,22 @@ Print Assumptions C17_dir_partition.
 
 Example C17_rooted_nonvacuous : forall cx p, is_root cx p = true -> reaches_root cx p.
 Proof. intros cx p H. apply RR_root. exact H. Qed.
+
+(* :default - the scan of a form's descendants finds the FIRST submit button (an <input> or <button> whose type is
+   "submit", ASCII case-insensitively) in document order and looks no further than the first nested <form> *)
+Theorem C17_default_is_first_submit : forall cx l,
+  (forall c, In c (before_form cx l) -> exists b, submit_of cx c = Ok b) ->
+  default_scan cx l = Ok (find (fun c => match submit_of cx c with Ok true => true | _ => false end) (before_form cx l)).
+Proof. exact default_scan_first. Qed.
+Print Assumptions C17_default_is_first_submit.
+
+(* :indeterminate - the verdict memoised per (form, group name) is "the form owns a checked radio button of that name";
+   it does not mention the element that asked *)
+Theorem C17_indeterminate_group : forall cx form name l,
+  (forall c, In c l -> str_eqb (get_tag cx c) L_input = true ->
+             exists b, indet_attrs cx c form name (attrs_at cx c) false false false = Ok b) ->
+  indet_scan cx form name l =
+  Ok (existsb (fun c => str_eqb (get_tag cx c) L_input &&
+                        match indet_attrs cx c form name (attrs_at cx c) false false false with Ok true => true | _ => false end) l).
+Proof. exact indet_scan_exists. Qed.
+Print Assumptions C17_indeterminate_group.
